@@ -249,3 +249,30 @@ def check_sweeps(ctx, only=None):
             arg = show(fd.expr(cs[0][1]["args"][1]))
             ok = (lo, hi) == (1, 1) and "next" in arg
         ctx.ob("R06.6", f"{kf}|visits-every-stream-id", ok, f"{fb.f['file']}:{fb.f['line']}", f"{fn} visits every id of 0..MAX_STREAMS (range {[show(x) for x in rng] if rng else None}) and calls {callee}(id) once per id")
+        if ok:
+            # the sweep is left only when the range is exhausted (or at an id that is the u32::MAX sentinel, which no id of the range is) -- and, for the query, on the
+            # `true` answer of the per-id function, answering true; after the loop it answers false
+            good = True; why = ""
+            for (x, y) in fb.loop_exits(h):
+                if y not in fb.can_return: continue
+                vs = util.variant_switch(fb, fd, x)
+                it_end = bool(vs) and "next" in show(vs[0]) and vs[1].get(0, vs[2]) == y
+                se = util.sentinel_edges(fb, fd, x)
+                sent = se is not None and se[0] == y and se[0] != se[1]
+                ans = False
+                if fn == "is_any_stream_running":
+                    t = fb.term(x)
+                    if t[0] == "Switch" and t[5] == "bool":
+                        e = strip_casts(fd.expr(t[1])); neg = False
+                        while e[0] == "un" and e[1] == "Not": e = strip_casts(e[2]); neg = not neg
+                        if e[0] == "call" and e[1] == SM + "::" + callee:
+                            true_t = t[3] if not neg else ([tg for (v, tg) in t[2] if v == 0] or [None])[0]
+                            ans = y == true_t and util.returned_values(fb, fd, y) == {("const", 1)}
+                if not (it_end or sent or ans): good = False; why = f"exit at {fb.loc(x)}"
+            after = True
+            if fn == "is_any_stream_running":
+                ends = [vs_[1].get(0, vs_[2]) for vs_ in (util.variant_switch(fb, fd, x) for x in fb.loops[h]) if vs_ and "next" in show(vs_[0])]
+                after = bool(ends) and all(util.returned_values(fb, fd, e_) == {("const", 0)} for e_ in ends)
+            ctx.ob("R06.6", f"{kf}|sweep-left-only-at-the-end", good and after, f"{fb.f['file']}:{fb.f['line']}",
+                   "the sweep ends only when every id was visited" + ("; true as soon as one stream runs, false when none does" if fn == "is_any_stream_running" else "") if good and after else
+                   f"the sweep can stop before every id was visited, or answers wrongly ({why or 'answer after the loop'})")
